@@ -69,6 +69,20 @@ let check_line (line : string) : unit =
             let r, extras = (match String.index_opt r_full '#' with
                 | Some j -> (String.sub r_full 0 j, split_on '#' (String.sub r_full (j + 1) (String.length r_full - j - 1)))
                 | None -> (r_full, [])) in
+            (* IterMut: the first item alone ("f="): the first registered type that is present - whatever is borrowed further
+               down the table; a conflict or a wrong cast of THAT resource panics *)
+            (match o with
+             | MIterMut ->
+                 List.iter (fun e -> match split_on '=' e with
+                     | ["f"; v] ->
+                         let reach = List.filter (fun k -> Hashtbl.mem present k) (List.map int_of_n (dedup_first [] !registered)) in
+                         let want = (match reach with
+                             | [] -> "-"
+                             | k :: _ -> if List.exists (fun (h, _) -> h = k) !holds then "pb" else if List.mem (n_of_int k) bad then "pc" else string_of_int k) in
+                         if v <> want then (incr n_oracle; Printf.printf "O iter_first_item L%d\t%s\n" i case)
+                     | _ -> ()) extras
+             | _ -> ());
+            let extras = List.filter (fun e -> String.length e < 2 || String.sub e 0 2 <> "f=") extras in
             (if extras <> [] && String.length r > 0 && r.[0] = 'l' then begin
                let tags = if r = "l-" then [] else List.map (fun it -> match split_on '/' it with [_; b; _] -> b | _ -> "?") (split_on ',' (String.sub r 1 (String.length r - 1))) in
                let nth k = (try List.nth tags k with _ -> "-") in
